@@ -62,6 +62,7 @@ def stepCodec (p : CodecProg) (toks : List String) : CodecProg × String :=
   | ["hexaddr", h] => (p, match unhex h with
     | some b => (match hexDecode (hexEncode b) with | some b' => String.ofList ((hexEncode b).map Char.ofNat) ++ " " ++ hx b' | none => "err")
     | none => "bad-op")
+  | t :: _ => if t.startsWith "mon." then (p, "done") else (p, "bad-op")   -- monitor-only operations: checked on the Go side
   | _ => (p, "bad-op")
 
 end Posmint.Driver
